@@ -63,9 +63,12 @@ fn measured<T>(f: impl FnOnce() -> T) -> (T, usize) {
     let peak = PEAK.load(Ordering::Relaxed);
     (r, peak.saturating_sub(base))
 }
-/// generous: 1 MiB + 64 bytes per input byte (a parsed value is a few times its encoding)
+/// generous and input-independent in its main term: 64 MiB + 64 bytes per input byte.  The
+/// largest allocation the format allows from a declared length alone is the SEEKTABLE
+/// pre-allocation `Contiguous::with_capacity(size / 18)`: at most 932 067 points of 24 bytes
+/// (about 22 MiB) for a 24-bit block size; everything else is read in 4 KiB chunks.
 fn alloc_bound(input_len: usize) -> usize {
-    (1 << 20) + 64 * input_len
+    (64 << 20) + 64 * input_len
 }
 
 struct St {
